@@ -91,7 +91,7 @@ type c20Prop struct{}
 func (c20Prop) ID() string     { return "C20" }
 func (c20Prop) BatchSize() int { return 20 }
 func (c20Prop) Rule() string {
-	return "case = one history of 12..50 operations on ONE long-lived engine over one growing store: queries (repeated, new, failing, cancelled, fallback; instant and range), appends of samples and of series, late Close of earlier queries, forced GC; after every query its result is compared with a freshly constructed engine on the current data, and after every operation all earlier results are re-canonicalised and compared bit for bit with the deep snapshot taken when they were returned; non-trivial iff the history contains >= 3 successful non-empty query results and >= 1 append; distinct by content hash"
+	return "case = one history of 12..50 operations on ONE long-lived engine over one growing store: queries (repeated, new, failing, cancelled, fallback; instant and range; a fifth with per-query options), queries whose storage fails or panics while their series are loaded (a few per history, most of the operations in 12% bad-day histories of 60-90 operations), appends of samples and of series, late Close of earlier queries, forced GC; after every query its result is compared with a freshly constructed engine on the current data, and after every operation all earlier results are re-canonicalised and compared bit for bit with the deep snapshot taken when they were returned; non-trivial iff the history contains >= 3 successful non-empty query results and >= 1 append; distinct by content hash"
 }
 func (c20Prop) NumCases(tier string) int {
 	if tier == "thorough" {
